@@ -371,7 +371,17 @@ pub async fn race_cfg(seed: u64, idx: u64, handler: HandlerKind, c10: bool, max_
                     0 | 1 => {
                         let op = if rng.bool() { ExtOp::PutIfNotExists } else { ExtOp::PutIfExists };
                         p.ext.as_ref().unwrap().set_faults(vec![ExtFault { op, nth: 1, fault, crash }]);
-                        fault_desc.push(format!("a{w}: ext.{}#1 {:?}{}", op.name(), fault, if crash { " +crash" } else { "" }));
+                        let get_fails = !crash && op == ExtOp::PutIfNotExists && rng.chance(1, 3);
+                        if get_fails {
+                            p.ext.as_ref().unwrap().set_fail_get_after_put_fault(true);
+                        }
+                        fault_desc.push(format!(
+                            "a{w}: ext.{}#1 {:?}{}{}",
+                            op.name(),
+                            fault,
+                            if crash { " +crash" } else { "" },
+                            if get_fails { " +next get fails" } else { "" }
+                        ));
                     }
                     _ if crash => {
                         let k = rng.range(1, 6) as u64;
